@@ -18,8 +18,8 @@ use crate::harness::*;
 use crate::prng::Rng;
 use crate::sched::{SchedKind, SchedSpec};
 
-pub const MAX_STEPS: usize = 600_000;
-pub const FAIR_AFTER: u32 = 60_000;
+pub const MAX_STEPS: usize = 120_000;
+pub const FAIR_AFTER: u32 = 30_000;
 pub const ORDER_LIMIT: usize = 5040;
 pub const SURVEY_BUDGET: usize = 20_000;
 
@@ -98,8 +98,14 @@ pub fn eval_run(scn: &Arc<Scenario>, spec: &SchedSpec) -> RunInfo {
             Some(why) => Verdict::Violation { class: "deadlock", message: format!("all threads blocked ({msg}); {why}") },
             None => Verdict::Discard("every blocked transaction also blocks when run alone after the committed ones".into()),
         },
+        Outcome::Livelock => match unexplained_block(scn, &progress) {
+            Some(why) => Verdict::Violation { class: "non-termination", message: format!("a transaction attempt looped without ever reaching commit (more than {} transactional accesses); {why}", fast_stm::verif::OP_BOUND) },
+            None => Verdict::Discard("the looping transaction also fails to complete when run alone after the committed ones".into()),
+        },
         Outcome::StepBound => {
-            if info.sched.turned_fair {
+            // a single unfinished thread running alone is under a fair schedule by definition
+            let unfinished = scn.threads.iter().enumerate().filter(|(t, txs)| progress.iter().filter(|(pt, _, _)| pt == t).count() < txs.len()).count();
+            if info.sched.turned_fair || unfinished == 1 {
                 match unexplained_block(scn, &progress) {
                     Some(why) => Verdict::Violation { class: "non-termination", message: format!("no termination within {MAX_STEPS} steps, of which the last ran fault-free under a fair schedule; {why}") },
                     None => Verdict::Discard("every unfinished transaction also blocks when run alone after the committed ones".into()),
@@ -349,7 +355,7 @@ fn edits_involving(s: &crate::state::State, x: u32, in_use: &[u32]) -> Vec<crate
 pub fn gen_pair_conflict(rng: &mut Rng) -> Scenario {
     use crate::ops::{Op, Runner, Tx};
     use crate::props::hprops::Flavour;
-    let dim3 = rng.chance(0.3);
+    let dim3 = rng.chance(0.4);
     let mut init = if dim3 {
         crate::gen3::gen_init_3d(rng, Flavour::Sews, Tier::Quick)
     } else {
@@ -367,6 +373,62 @@ pub fn gen_pair_conflict(rng: &mut Rng) -> Scenario {
     }
     let order = rand_order(rng, init.kinds);
     let in_use: Vec<u32> = (1..init.n() as u32).filter(|&d| !init.unused[d as usize]).collect();
+    if dim3 && rng.chance(0.5) {
+        // a 3-sew of two mirror faces next to user blocks on darts of those faces
+        let pairs = crate::gen3::mirror_pairs(&init);
+        if !pairs.is_empty() {
+            let (l, r) = *rng.pick(&pairs);
+            if rng.chance(0.7) {
+                // one face-bound kind with a value on every face, so that the 3-sew's face
+                // merge succeeds and user blocks have something to collide with
+                let k = if rng.chance(0.5) { crate::attrs::K_TF } else { crate::attrs::K_WF };
+                init.kinds = 1 << k;
+                let n = init.n();
+                for (kk, a) in init.attrs.iter_mut().enumerate() {
+                    *a = if kk == k { vec![None; n] } else { vec![] };
+                }
+                let pf = init.partition(2);
+                let mut pow = 0u32;
+                for d in 1..n as u32 {
+                    if !init.unused[d as usize] && pf[d as usize] == d {
+                        pow = (pow + 1) % 38;
+                        init.attrs[k][d as usize] = Some(if k == crate::attrs::K_TF { 0 } else { 1u64 << pow });
+                    }
+                }
+            }
+            let order = rand_order(rng, init.kinds);
+            let mut threads = vec![vec![Tx { runner: if rng.chance(0.5) { Runner::Force } else { Runner::WithErr }, ops: vec![Op::Sew { i: 3, l, r }], f1: vec![], f2: vec![], f1_attempt: 0 }]];
+            let mut face: Vec<u32> = init.face_walk(l, true).fwd;
+            face.extend(init.face_walk(r, true).fwd);
+            let kinds_here = crate::attrs::mask_kinds(init.kinds);
+            if rng.chance(0.35) {
+                // a transaction that rewires the beta1 cycle of one of the two faces: it bypasses
+                // one dart (which becomes isolated), so a concurrent walk of the face that mixes
+                // old and new images may never come back to its start
+                let side = if rng.chance(0.5) { l } else { r };
+                let f = init.face_walk(side, true).fwd;
+                if f.len() >= 3 {
+                    let k = if rng.chance(0.6) { 0 } else { rng.below(f.len()) };
+                    let (prev, cur, next) = (f[(k + f.len() - 1) % f.len()], f[k], f[(k + 1) % f.len()]);
+                    let ops = vec![Op::Unlink { i: 1, l: prev }, Op::Unlink { i: 1, l: cur }, Op::Link { i: 1, l: prev, r: next }];
+                    threads.push(vec![Tx { runner: Runner::WithErr, ops, f1: vec![], f2: vec![], f1_attempt: 0 }]);
+                }
+            }
+            for _ in 0..1 + usize::from(rng.chance(0.3)) {
+                let d = *rng.pick(&face);
+                let op = match rng.below(4) {
+                    0 | 1 if !kinds_here.is_empty() => {
+                        let k = *rng.pick(&kinds_here);
+                        Op::WriteACell { k: k as u8, d, v: if crate::attrs::kind_is_tag(k) { 1 } else { 1 << 22 } }
+                    }
+                    2 => Op::WriteVCell { d, v: crate::state::b3([12.5, -7.0, 3.25 + d as f64]) },
+                    _ => Op::CellId { okind: 2, d },
+                };
+                threads.push(vec![Tx { runner: Runner::WithErr, ops: vec![op], f1: vec![], f2: vec![], f1_attempt: 0 }]);
+            }
+            return Scenario { init, order, threads, f2: vec![], pre: vec![] };
+        }
+    }
     let x = *rng.pick(&in_use);
     // the dart and its neighbourhood
     let mut hood = vec![x];
@@ -381,6 +443,18 @@ pub fn gen_pair_conflict(rng: &mut Rng) -> Scenario {
     let mut used: Vec<Op> = vec![];
     for t in 0..n_threads {
         let y = if t == 0 { x } else { *rng.pick(&hood) };
+        if t > 0 && rng.chance(0.25) {
+            // a user block: compute a cell id, then write data under it
+            let kinds_here = crate::attrs::mask_kinds(init.kinds);
+            let op = if !kinds_here.is_empty() && rng.chance(0.6) {
+                let k = *rng.pick(&kinds_here);
+                Op::WriteACell { k: k as u8, d: y, v: if crate::attrs::kind_is_tag(k) { 2 } else { 1 << 21 } }
+            } else {
+                Op::WriteVCell { d: y, v: crate::state::b3([-55.0, 8.25 + y as f64, 0.0]) }
+            };
+            threads.push(vec![Tx { runner: Runner::WithErr, ops: vec![op], f1: vec![], f2: vec![], f1_attempt: 0 }]);
+            continue;
+        }
         let mut cands = edits_involving(&init, y, &in_use);
         cands.retain(|o| !used.contains(o));
         let op = if cands.is_empty() {
@@ -399,9 +473,15 @@ pub fn gen_pair_conflict(rng: &mut Rng) -> Scenario {
         if rng.chance(0.3) {
             // the transaction also returns what it sees of the neighbourhood
             let d = *rng.pick(&hood);
-            let extra = match rng.below(3) {
-                0 => Op::CellId { okind: 0, d },
-                1 => Op::ReadV { id: init.cell_id(crate::state::Policy::Vertex, d) },
+            let kinds_here = crate::attrs::mask_kinds(init.kinds);
+            let extra = match rng.below(6) {
+                0 => Op::CellId { okind: rng.below(init.dim as usize + 1) as u8, d },
+                1 => Op::ReadVCell { d },
+                2 => Op::WriteVCell { d, v: crate::state::b3([77.0 + d as f64, -3.5, 0.0]) },
+                3 | 4 if !kinds_here.is_empty() => {
+                    let k = *rng.pick(&kinds_here);
+                    Op::WriteACell { k: k as u8, d, v: if crate::attrs::kind_is_tag(k) { 1 } else { 1 << 20 } }
+                }
                 _ => Op::Audit { kinds: init.kinds, data: true },
             };
             if rng.chance(0.5) { ops.push(extra) } else { ops.insert(0, extra) }
@@ -585,15 +665,29 @@ pub fn gen_s3b(rng: &mut Rng) -> Scenario {
 }
 
 pub fn gen_family(rng: &mut Rng) -> (&'static str, Scenario) {
-    match rng.below(36) {
-        31..=35 => ("S3b", gen_s3b(rng)),
-        29..=30 => ("S4", gen_s4(rng)),
-        26..=28 => ("S6", gen_s6(rng)),
-        20..=25 => ("S1b", gen_pair_conflict(rng)),
-        0..=7 => ("S1", gen_s1(rng)),
-        8..=12 => ("S2", gen_s2(rng)),
-        13..=17 => ("S3", gen_s3(rng)),
-        _ => ("S5", gen_s5(rng)),
+    // debugging aid: VERIF_ONLY=<family> restricts generation to one family
+    if let Ok(only) = std::env::var("VERIF_ONLY") {
+        return match only.as_str() {
+            "S1" => ("S1", gen_s1(rng)),
+            "S1b" => ("S1b", gen_pair_conflict(rng)),
+            "S2" => ("S2", gen_s2(rng)),
+            "S3" => ("S3", gen_s3(rng)),
+            "S3b" => ("S3b", gen_s3b(rng)),
+            "S4" => ("S4", gen_s4(rng)),
+            "S5" => ("S5", gen_s5(rng)),
+            _ => ("S6", gen_s6(rng)),
+        };
+    }
+    // the pair-conflict families (S1b, S3b) find the most per scenario and get the largest share
+    match rng.below(40) {
+        0..=5 => ("S1", gen_s1(rng)),
+        6..=17 => ("S1b", gen_pair_conflict(rng)),
+        18..=21 => ("S2", gen_s2(rng)),
+        22..=25 => ("S3", gen_s3(rng)),
+        26..=32 => ("S3b", gen_s3b(rng)),
+        33..=34 => ("S4", gen_s4(rng)),
+        35..=36 => ("S5", gen_s5(rng)),
+        _ => ("S6", gen_s6(rng)),
     }
 }
 
@@ -630,7 +724,7 @@ pub fn minimise(v: Violation) -> Violation {
     let mut scn = p.scenario.clone();
     let mut spec = p.sched.clone();
     let mut msg = v.message.clone();
-    let tries = 120;
+    let tries = if class == "non-termination" || class == "deadlock" { 6 } else { 120 };
     let mut progress = true;
     let mut rounds = 0;
     while progress && rounds < 6 {
@@ -729,7 +823,7 @@ pub fn digest(n: u64) {
 
 pub fn check(tier: Tier) -> i32 {
     let n_scen = scaled(match tier {
-        Tier::Quick => 3_000,
+        Tier::Quick => 4_000,
         Tier::Thorough => 300_000,
     });
     let (mut counters, viols, wall) = parallel_runs("C07", n_scen, |i, seed, c| run_scenario(i, seed, c));
